@@ -1161,3 +1161,288 @@ Proof.
            A lower higher junk junk' degree b x p p' r r').
 Qed.
 Print Assumptions C02_chebyshev_scales_Qc.
+
+(* ================================================================== *)
+(* BLOCK VALUE TYPES (the property quantifies over "block sizes"): value_type = static_matrix<T,b,b>.
+   Model: the SAME Amg.cycle / Amg.apply / Amg.amg_init, which are polymorphic in the Scalar record, at the instance
+   BlockInst.BlockS S0 b (products do NOT commute; vector entries static_matrix<T,b,1> are column-0 blocks), with the
+   five smoothers the amg drivers instantiate (AmgBlockCycle.mk_relax5: damped_jacobi, spai0, gauss_seidel from
+   Relax.v, ilu0 from Ilu.v, chebyshev from Cheby.v) and the block coarse solve as a specification
+   (AmgBlockCycle.mk_solve_block: exact solve of the matrix expanded to scalars).  Proofs: AmgBlockCycleProofs.v
+   (A1, no algebraic law), AmgBlockCycleLin.v (A2, non-commutative ring laws only; tactic ncr).
+   Tie: tools/props/c02_block.py, harness/amgc_driver.hh, ocaml/amgc/ops_amgc.ml. *)
+From Amgcl Require Import Ilu NcRing DirectUtil Inverse StaticMat BlockInst BlockKernels NcRingBlock
+  AmgBlockCycle AmgBlockCycleProofs AmgBlockCycleLin AmgBlockCycleExample.
+
+(* ---- A1 for block values: history independence ---- *)
+(* static_matrix<T,b,b> recognises its zero as soon as operator== of T is reflexive (NaN-free T) *)
+Theorem C02_block_zero_recognised (S0 : Scalar) (b : nat) :
+  (forall x : S0, seqb x x = true) -> is_zero (@s0 (BlockS S0 b)) = true.
+Proof. exact (block_zero_is_zero S0 b). Qed.
+Print Assumptions C02_block_zero_recognised.
+
+(* C02_apply_history_independent / C02_cycle_history_independent hold for ANY Scalar whose zero is recognised: here
+   they are, instantiated at the block value type (any smoothers with sweep_ok, any coarse solver with solve_ok) *)
+Theorem C02_apply_history_independent_blocks (S0 : Scalar) (b : nat) (R : forall x : S0, seqb x x = true)
+  npre npost ncycle pre_cycles (lvls : list (@level (BlockS S0 b))) :
+  hier_wf lvls -> lvls <> [] -> forall scr1 scr2 rhs x1 x2,
+  scratch_wf lvls scr1 -> scratch_wf lvls scr2 ->
+  length rhs = top_n lvls -> length x1 = top_n lvls -> length x2 = top_n lvls ->
+  fst (apply npre npost ncycle pre_cycles lvls scr1 rhs x1) =
+  fst (apply npre npost ncycle pre_cycles lvls scr2 rhs x2) /\
+  length (fst (apply npre npost ncycle pre_cycles lvls scr1 rhs x1)) = top_n lvls /\
+  scratch_wf lvls (snd (apply npre npost ncycle pre_cycles lvls scr1 rhs x1)).
+Proof. exact (block_apply_history_indep_any S0 b R npre npost ncycle pre_cycles lvls). Qed.
+Print Assumptions C02_apply_history_independent_blocks.
+
+Theorem C02_cycle_history_independent_blocks (S0 : Scalar) (b : nat) (R : forall x : S0, seqb x x = true)
+  npre npost ncycle (lvls : list (@level (BlockS S0 b))) :
+  hier_wf lvls -> forall scr1 scr2 rhs x,
+  scratch_wf lvls scr1 -> scratch_wf lvls scr2 ->
+  length rhs = top_n lvls -> length x = top_n lvls ->
+  fst (cycle npre npost ncycle lvls scr1 rhs x) = fst (cycle npre npost ncycle lvls scr2 rhs x) /\
+  length (fst (cycle npre npost ncycle lvls scr1 rhs x)) = top_n lvls /\
+  scratch_wf lvls (snd (cycle npre npost ncycle lvls scr1 rhs x)).
+Proof. exact (block_cycle_history_indep_any S0 b R npre npost ncycle lvls). Qed.
+Print Assumptions C02_cycle_history_independent_blocks.
+
+(* the side conditions hold for all FIVE smoothers over every Scalar record (no algebraic law): lengths are kept and
+   the x-output does not depend on the incoming content of the level's work vector t *)
+Theorem C02_five_smoothers_ok {S : Scalar} (k : @relax5 S) (A : crs S) :
+  sweep_ok (nrows A) (fst (mk_relax5 k A)) /\ sweep_ok (nrows A) (snd (mk_relax5 k A)).
+Proof. exact (mk_relax5_ok k A). Qed.
+Print Assumptions C02_five_smoothers_ok.
+
+(* relaxation::chebyshev keeps its own work vectors p, r (mutable members): the model hands zero vectors in; every
+   other content of the right length gives the same sweep *)
+Theorem C02_chebyshev_workspace_free {S : Scalar} (Z : is_zero (@s0 S) = true) degree (lower higher : S) scale
+  (A : crs S) (rhs x t p r : vec S) :
+  length rhs = nrows A -> length x = nrows A -> length p = nrows A -> length r = nrows A ->
+  fst (fst (cheby_sweeps degree lower higher scale A) rhs x t) =
+  cheby_sweep (cheby_setup scale A (gershgorin scale A) lower higher (vzero (nrows A))) degree A rhs x p r.
+Proof. exact (cheby_sweeps_workspace_free Z degree lower higher scale A rhs x t p r). Qed.
+Print Assumptions C02_chebyshev_workspace_free.
+
+Theorem C02_block_coarse_solve_ok (S0 : Scalar) (b : nat) (Hb : 0 < b) (A : crs (BlockS S0 b)) :
+  solve_ok (nrows A) (mk_solve_block S0 b A).
+Proof. exact (mk_solve_block_ok S0 b Hb A). Qed.
+Print Assumptions C02_block_coarse_solve_ok.
+
+Theorem C02_block_hierarchy_wf (S0 : Scalar) (b : nat) (Hb : 0 < b) (k : @relax5 (BlockS S0 b)) cop
+  (ls : list (@ldesc (BlockS S0 b))) : coarse_shape cop -> chain cop ls ->
+  hier_wf (block_levels S0 b k ls) /\ block_levels S0 b k ls <> [] /\
+  scratch_wf (block_levels S0 b k ls) (map fresh_scratch ls).
+Proof. exact (block_levels_wf S0 b Hb k cop ls). Qed.
+Print Assumptions C02_block_hierarchy_wf.
+
+(* every block-valued hierarchy that amg_init builds (any transfer operators, Galerkin or re-scaled Galerkin coarse
+   operators, any of the five smoothers -- constructed successfully: descs_ready --, block coarse solve) acts as ONE
+   fixed operator: neither the per-level vectors left by earlier applications nor the incoming x matter *)
+Theorem C02_apply_history_independent_blocks_built (S0 : Scalar) (b : nat) (Hb : 0 < b)
+  (R : forall x : S0, seqb x x = true) ce dc ml (sc : option (BlockS S0 b)) ts (M : crs (BlockS S0 b))
+  (k : @relax5 (BlockS S0 b)) npre npost ncycle pre_cycles :
+  descs_ready k (amg_init ce dc ml (coarse_op_of sc) ts M) = true ->
+  let lvls := block_levels S0 b k (amg_init ce dc ml (coarse_op_of sc) ts M) in
+  forall scr1 scr2 rhs x1 x2,
+  scratch_wf lvls scr1 -> scratch_wf lvls scr2 ->
+  length rhs = nrows M -> length x1 = nrows M -> length x2 = nrows M ->
+  fst (apply npre npost ncycle pre_cycles lvls scr1 rhs x1) =
+  fst (apply npre npost ncycle pre_cycles lvls scr2 rhs x2).
+Proof. exact (block_apply_history_indep_ready S0 b Hb R ce dc ml sc ts M k npre npost ncycle pre_cycles). Qed.
+Print Assumptions C02_apply_history_independent_blocks_built.
+
+Theorem C02_apply_after_any_history_blocks (S0 : Scalar) (b : nat) (Hb : 0 < b)
+  (R : forall x : S0, seqb x x = true) ce dc ml (sc : option (BlockS S0 b)) ts (M : crs (BlockS S0 b))
+  (k : @relax5 (BlockS S0 b)) npre npost ncycle pre_cycles :
+  descs_ready k (amg_init ce dc ml (coarse_op_of sc) ts M) = true ->
+  let lvls := block_levels S0 b k (amg_init ce dc ml (coarse_op_of sc) ts M) in
+  forall hist scr scr0 rhs x x0,
+  Forall (fun fx => length (fst fx) = nrows M /\ length (snd fx) = nrows M) hist ->
+  scratch_wf lvls scr -> scratch_wf lvls scr0 ->
+  length rhs = nrows M -> length x = nrows M -> length x0 = nrows M ->
+  fst (apply npre npost ncycle pre_cycles lvls
+         (run_history npre npost ncycle pre_cycles lvls scr hist) rhs x) =
+  fst (apply npre npost ncycle pre_cycles lvls scr0 rhs x0).
+Proof. exact (block_apply_after_any_history_ready S0 b Hb R ce dc ml sc ts M k npre npost ncycle pre_cycles). Qed.
+Print Assumptions C02_apply_after_any_history_blocks.
+
+(* ---- A2 without commutativity: RIGHT-linearity ----
+   Over a non-commutative ring of values "B (a f + b g) = a B f + b B g" is false for general a, b (B multiplies from
+   the left).  Every product of amg.hpp and of the smoothers has the vector entry as its RIGHT operand, so the cycle is
+   right-linear: cycle (f*a + g*b, x*a + y*b) = cycle (f, x)*a + cycle (g, y)*b, from associativity and the two
+   distributive laws alone.  vrlin x a y b = entrywise x_i*a + y_i*b.  The class Coef of admissible coefficients is
+   constrained only by the coarse solver (solve_rlin); hier_rlin = hier_wf + every sweep right-linear + coarse solve
+   right-linear over Coef + A_l, R_l, P_l with column indices in range. *)
+Theorem C02_cycle_right_linear {S : Scalar} (Hnc : ncring_theory S) (Seqb : seqb_spec S) (Coef : S -> Prop)
+  npre npost ncycle (lvls : list (@level S)) :
+  hier_rlin Coef lvls -> forall a b scr1 scr2 scr3 f g x y, Coef a -> Coef b ->
+  scratch_wf lvls scr1 -> scratch_wf lvls scr2 -> scratch_wf lvls scr3 ->
+  length f = top_n lvls -> length g = top_n lvls -> length x = top_n lvls -> length y = top_n lvls ->
+  fst (cycle npre npost ncycle lvls scr3 (vrlin f a g b) (vrlin x a y b)) =
+  vrlin (fst (cycle npre npost ncycle lvls scr1 f x)) a (fst (cycle npre npost ncycle lvls scr2 g y)) b.
+Proof. exact (cycle_rlinear Hnc Seqb Coef npre npost ncycle lvls). Qed.
+Print Assumptions C02_cycle_right_linear.
+
+Theorem C02_apply_right_linear {S : Scalar} (Hnc : ncring_theory S) (Seqb : seqb_spec S) (Coef : S -> Prop)
+  npre npost ncycle pre_cycles (lvls : list (@level S)) :
+  hier_rlin Coef lvls -> lvls <> [] ->
+  forall a b scr1 scr2 scr3 f g x1 x2 x3, Coef a -> Coef b ->
+  scratch_wf lvls scr1 -> scratch_wf lvls scr2 -> scratch_wf lvls scr3 ->
+  length f = top_n lvls -> length g = top_n lvls ->
+  length x1 = top_n lvls -> length x2 = top_n lvls -> length x3 = top_n lvls ->
+  fst (apply npre npost ncycle pre_cycles lvls scr3 (vrlin f a g b) x3) =
+  vrlin (fst (apply npre npost ncycle pre_cycles lvls scr1 f x1)) a
+        (fst (apply npre npost ncycle pre_cycles lvls scr2 g x2)) b.
+Proof. exact (apply_rlinear Hnc Seqb Coef npre npost ncycle pre_cycles lvls). Qed.
+Print Assumptions C02_apply_right_linear.
+
+(* all five smoothers are right-linear in (rhs, x) over the WHOLE ring (any coefficient class) *)
+Theorem C02_five_smoothers_right_linear {S : Scalar} (Hnc : ncring_theory S) (Seqb : seqb_spec S) (Coef : S -> Prop)
+  (k : @relax5 S) (A : crs S) : wf A = true ->
+  sweep_rlin Coef (nrows A) (fst (mk_relax5 k A)) /\ sweep_rlin Coef (nrows A) (snd (mk_relax5 k A)).
+Proof. exact (mk_relax5_rlin Hnc Seqb Coef k A). Qed.
+Print Assumptions C02_five_smoothers_right_linear.
+
+(* the block coarse solve is linear over the embedded base scalars c*I, whenever it does not break down *)
+Theorem C02_block_coarse_solve_linear (S0 : Scalar) (b : nat) (Srt : Sring S0) (Hb : 0 < b)
+  (A : crs (BlockS S0 b)) : ncols A = nrows A -> solvable_block S0 b A = true ->
+  solve_rlin (embedded S0 b) (nrows A) (mk_solve_block S0 b A).
+Proof. exact (mk_solve_block_rlin S0 b Srt Hb A). Qed.
+Print Assumptions C02_block_coarse_solve_linear.
+
+Theorem C02_block_hierarchy_linear (S0 : Scalar) (b : nat) (Srt : Sring S0) (Seqb0 : seqb_spec S0) (Hb : 0 < b)
+  (k : @relax5 (BlockS S0 b)) ce dc ml (sc : option (BlockS S0 b)) ts (M : crs (BlockS S0 b)) :
+  wf M = true -> ts_wf (nrows M) ts ->
+  (forall A, In (LSolve A) (amg_init ce dc ml (coarse_op_of sc) ts M) ->
+             ncols A = nrows A /\ solvable_block S0 b A = true) ->
+  hier_rlin (embedded S0 b) (block_levels S0 b k (amg_init ce dc ml (coarse_op_of sc) ts M)).
+Proof. exact (block_levels_rlin S0 b Srt Seqb0 Hb k ce dc ml sc ts M). Qed.
+Print Assumptions C02_block_hierarchy_linear.
+
+(* the clause of the property for block values: B (alpha f + beta g) = alpha B f + beta B g for base scalars alpha,
+   beta (embedded as alpha*I and multiplying from the LEFT, as the code's alpha * x[i] does; they are central, so
+   left and right coincide); neither the scratch states nor the incoming x vectors matter *)
+Theorem C02_apply_linear_blocks (S0 : Scalar) (b : nat) (Srt : Sring S0) (Seqb0 : seqb_spec S0) (Hb : 0 < b)
+  (k : @relax5 (BlockS S0 b)) ce dc ml (sc : option (BlockS S0 b)) ts (M : crs (BlockS S0 b))
+  npre npost ncycle pre_cycles :
+  wf M = true -> ts_wf (nrows M) ts ->
+  descs_ready k (amg_init ce dc ml (coarse_op_of sc) ts M) = true ->
+  (forall A, In (LSolve A) (amg_init ce dc ml (coarse_op_of sc) ts M) ->
+             ncols A = nrows A /\ solvable_block S0 b A = true) ->
+  let lvls := block_levels S0 b k (amg_init ce dc ml (coarse_op_of sc) ts M) in
+  forall (al be : S0) scr1 scr2 scr3 f g x1 x2 x3,
+  scratch_wf lvls scr1 -> scratch_wf lvls scr2 -> scratch_wf lvls scr3 ->
+  length f = nrows M -> length g = nrows M ->
+  length x1 = nrows M -> length x2 = nrows M -> length x3 = nrows M ->
+  fst (apply npre npost ncycle pre_cycles lvls scr3
+         (vlin (S := BlockS S0 b) (blk_embed S0 b al) f (blk_embed S0 b be) g) x3) =
+  vlin (S := BlockS S0 b) (blk_embed S0 b al) (fst (apply npre npost ncycle pre_cycles lvls scr1 f x1))
+       (blk_embed S0 b be) (fst (apply npre npost ncycle pre_cycles lvls scr2 g x2)).
+Proof. exact (block_apply_linear_ready S0 b Srt Seqb0 Hb k ce dc ml sc ts M npre npost ncycle pre_cycles). Qed.
+Print Assumptions C02_apply_linear_blocks.
+
+Theorem C02_cycle_linear_blocks (S0 : Scalar) (b : nat) (Srt : Sring S0) (Seqb0 : seqb_spec S0) (Hb : 0 < b)
+  (k : @relax5 (BlockS S0 b)) ce dc ml (sc : option (BlockS S0 b)) ts (M : crs (BlockS S0 b)) npre npost ncycle :
+  wf M = true -> ts_wf (nrows M) ts ->
+  descs_ready k (amg_init ce dc ml (coarse_op_of sc) ts M) = true ->
+  (forall A, In (LSolve A) (amg_init ce dc ml (coarse_op_of sc) ts M) ->
+             ncols A = nrows A /\ solvable_block S0 b A = true) ->
+  let lvls := block_levels S0 b k (amg_init ce dc ml (coarse_op_of sc) ts M) in
+  forall (al be : S0) scr1 scr2 scr3 f g x y,
+  scratch_wf lvls scr1 -> scratch_wf lvls scr2 -> scratch_wf lvls scr3 ->
+  length f = nrows M -> length g = nrows M -> length x = nrows M -> length y = nrows M ->
+  fst (cycle npre npost ncycle lvls scr3 (vlin (S := BlockS S0 b) (blk_embed S0 b al) f (blk_embed S0 b be) g)
+                                         (vlin (S := BlockS S0 b) (blk_embed S0 b al) x (blk_embed S0 b be) y)) =
+  vlin (S := BlockS S0 b) (blk_embed S0 b al) (fst (cycle npre npost ncycle lvls scr1 f x))
+       (blk_embed S0 b be) (fst (cycle npre npost ncycle lvls scr2 g y)).
+Proof. exact (block_cycle_linear_ready S0 b Srt Seqb0 Hb k ce dc ml sc ts M npre npost ncycle). Qed.
+Print Assumptions C02_cycle_linear_blocks.
+
+(* ---- closed at the exact rationals: static_matrix<Q,b,b>, the instance the tie runs ---- *)
+Theorem C02_apply_history_independent_blocks_Qc (b : nat) (Hb : 0 < b)
+  ce dc ml (sc : option (BlockS QcS b)) ts (M : crs (BlockS QcS b))
+  (k : @relax5 (BlockS QcS b)) npre npost ncycle pre_cycles :
+  descs_ready k (amg_init ce dc ml (coarse_op_of sc) ts M) = true ->
+  let lvls := block_levels QcS b k (amg_init ce dc ml (coarse_op_of sc) ts M) in
+  forall scr1 scr2 rhs x1 x2,
+  scratch_wf lvls scr1 -> scratch_wf lvls scr2 ->
+  length rhs = nrows M -> length x1 = nrows M -> length x2 = nrows M ->
+  fst (apply npre npost ncycle pre_cycles lvls scr1 rhs x1) =
+  fst (apply npre npost ncycle pre_cycles lvls scr2 rhs x2).
+Proof.
+  exact (block_apply_history_indep_ready QcS b Hb (seqb0_refl QcS QcS_eqb) ce dc ml sc ts M k npre npost ncycle pre_cycles).
+Qed.
+Print Assumptions C02_apply_history_independent_blocks_Qc.
+
+Theorem C02_apply_linear_blocks_Qc (b : nat) (Hb : 0 < b)
+  (k : @relax5 (BlockS QcS b)) ce dc ml (sc : option (BlockS QcS b)) ts (M : crs (BlockS QcS b))
+  npre npost ncycle pre_cycles :
+  wf M = true -> ts_wf (nrows M) ts ->
+  descs_ready k (amg_init ce dc ml (coarse_op_of sc) ts M) = true ->
+  (forall A, In (LSolve A) (amg_init ce dc ml (coarse_op_of sc) ts M) ->
+             ncols A = nrows A /\ solvable_block QcS b A = true) ->
+  let lvls := block_levels QcS b k (amg_init ce dc ml (coarse_op_of sc) ts M) in
+  forall (al be : T QcS) scr1 scr2 scr3 f g x1 x2 x3,
+  scratch_wf lvls scr1 -> scratch_wf lvls scr2 -> scratch_wf lvls scr3 ->
+  length f = nrows M -> length g = nrows M ->
+  length x1 = nrows M -> length x2 = nrows M -> length x3 = nrows M ->
+  fst (apply npre npost ncycle pre_cycles lvls scr3
+         (vlin (S := BlockS QcS b) (blk_embed QcS b al) f (blk_embed QcS b be) g) x3) =
+  vlin (S := BlockS QcS b) (blk_embed QcS b al) (fst (apply npre npost ncycle pre_cycles lvls scr1 f x1))
+       (blk_embed QcS b be) (fst (apply npre npost ncycle pre_cycles lvls scr2 g x2)).
+Proof. exact (block_apply_linear_ready QcS b QcS_ring QcS_eqb Hb k ce dc ml sc ts M npre npost ncycle pre_cycles). Qed.
+Print Assumptions C02_apply_linear_blocks_Qc.
+
+(* ---- non-vacuity (AmgBlockCycleExample.v): a 3-node path with 2 x 2 blocks that do not commute, A_JI = A_IJ^T,
+   aggregates {0,1}, {2}, re-scaled Galerkin operator (over_interp = 2), direct solver on the coarse level ---- *)
+Example C02_example_blocks_do_not_commute :
+  seqb (s := B2) (smul (s := B2) (bq (-1) (-2) 0 (-1)) (bq 5 (-1) (-1) 4))
+                 (smul (s := B2) (bq 5 (-1) (-1) 4) (bq (-1) (-2) 0 (-1))) = false.
+Proof. vm_compute. reflexivity. Qed.
+
+Example C02_example_blocks_hypotheses :
+  wf exBM = true /\ ts_wf (nrows exBM) exBTs /\ length exBH = 2 /\
+  (forall A, In (LSolve A) exBH -> ncols A = nrows A /\ solvable_block QcS 2 A = true) /\
+  descs_ready (R5Std (S := B2) RGS) exBH = true /\
+  descs_ready (R5Ilu0 (S := B2) (blk_embed QcS 2 (qc 3 4))) exBH = true /\
+  descs_ready (R5Cheby (S := B2) 2 (blk_embed QcS 2 (qc 1 8)) (blk_embed QcS 2 (qc 1 1)) true) exBH = true /\
+  scratch_wf (block_levels QcS 2 (R5Std (S := B2) RGS) exBH) exBScr0 /\
+  scratch_wf (block_levels QcS 2 (R5Std (S := B2) RGS) exBH) exBDirty.
+Proof.
+  split; [vm_compute; reflexivity|].
+  split; [apply ts_wfb_ok; vm_compute; reflexivity|].
+  split; [vm_compute; reflexivity|].
+  split; [apply solve_check_block_ok; vm_compute; reflexivity|].
+  split; [vm_compute; reflexivity|]. split; [vm_compute; reflexivity|]. split; [vm_compute; reflexivity|].
+  split; [apply (fresh_scratch_wf (S := B2))|].
+  vm_compute. auto 20.
+Qed.
+
+(* one V(1,1) application with symmetric Gauss-Seidel: the result does not depend on dirty scratch / dirty x (not even
+   column shaped), and B (2 f - 3 g) = 2 B f - 3 B g, computed inside Coq *)
+Example C02_example_blocks_concrete :
+  let lv := block_levels QcS 2 (R5Std (S := B2) RGS) exBH in
+  let Bop := fun s f y => fst (apply 1 1 1 1 lv s f y) in
+  bvec_eqb (Bop exBScr0 exBF exBZ) (Bop exBDirty exBF exBJunk) = true /\
+  bvec_eqb (Bop exBDirty (vlin (S := B2) (blk_embed QcS 2 (qc 2 1)) exBF (blk_embed QcS 2 (qc (-3) 1)) exBG) exBG)
+           (vlin (S := B2) (blk_embed QcS 2 (qc 2 1)) (Bop exBScr0 exBF exBZ)
+                 (blk_embed QcS 2 (qc (-3) 1)) (Bop exBScr0 exBG exBZ)) = true /\
+  bvec_eqb (Bop exBScr0 exBF exBZ)
+           [blk_col QcS 2 [qc 1637293 1171445; qc 9743576 33971905]; blk_col QcS 2 [qc 787566 357599; qc 3128243 1787995];
+            blk_col QcS 2 [qc 119028 61655; qc 33772 12331]] = true.
+Proof. vm_compute. auto. Qed.
+
+(* FULL STATEMENT (unproved): symmetry for block values.
+   For S0 a commutative ring with trivial conjugation, b > 0, M : crs (BlockS S0 b) with
+     mget M j i = sadj (mget M i j)                      (A_JI = A_IJ^T: the expanded matrix is symmetric),
+   transfer operators with mget R i j = sadj (mget P j i) on every level, every LSolve matrix square and solvable,
+   k one of damped_jacobi, spai0, gauss_seidel, ilu0 (constructed), chebyshev, every diagonal block that a smoother
+   inverts invertible on both sides, npre = npost:
+     forall f g (column-shaped, length nrows M),
+       dot_flat (flat_of_bvec (fst (apply n n nc pc lvls scr1 f x1))) (flat_of_bvec g) =
+       dot_flat (flat_of_bvec f) (flat_of_bvec (fst (apply n n nc pc lvls scr2 g x2)))
+   with lvls = block_levels S0 b k (amg_init ce dc ml (coarse_op_of sc) ts M), sc an embedded base scalar.
+   The commutative proofs (AmgProofs6.v - AmgProofs9.v) use commutativity of the product throughout the bilinear-form
+   calculus; the port needs the anti-automorphism sadj (BlockMatOpsProofs.v) and two-sided block inverses
+   (NcRingBlockInv.v).  On the implementation the statement is CHECKED exactly (tools/props/c02_block.py,
+   oracle:block-symmetry: the dense B assembled from unit vectors equals its transpose) for all five smoothers. *)
